@@ -47,9 +47,7 @@ def init_worker():
     data = pheno.replace(dataset=df)
     di = pheno.datainfo
     col = di['APGR']
-    ditype = pheno.replace(datainfo=di.set_column(col.replace(descriptor='apgar', unit='1')))
-    from pharmpy.modeling import add_individual_parameter
-    stmt = add_individual_parameter(pheno, 'MAT') if False else None
+    ditype = pheno.replace(datainfo=di.set_column(col.replace(unit='kg')))
     _STATE['variants'] = {'pheno': pheno, 'init': init, 'data': data, 'ditype': ditype}
     _STATE['res'] = res
 
@@ -108,8 +106,7 @@ def _equiv(got_me, spec, want_name=None):
     flags['datainfo'] = bool(model.datainfo.replace(path=None) == want.datainfo.replace(path=None))
     if want_name is not None:
         flags['name'] = model.name == want_name
-        flags['description'] = model.description == spec['desc']
-    if spec.get('res'):
+    if spec.get('res') and isinstance(got_me, ModelEntry):
         w = _STATE['res']
         try:
             flags['results'] = bool(res is not None and res.ofv == w.ofv
@@ -376,6 +373,10 @@ def run_case(args):
         code2, ev2, out2 = (0, [], {})
         if spec.get('w2'):
             code2, ev2, out2 = run_phase(root, spec['w2'], spec['models'], -1, os.path.join(casedir, 'ev2.jsonl'))
+        for e in ev2:       # a complete rewrite ('w') replaces a torn file
+            fl = e.get('flags') or 0
+            if e['ev'] == 'open' and (fl & os.O_ACCMODE) == os.O_WRONLY and fl & os.O_TRUNC:
+                torn_paths.discard(e['path'])
         tree2 = walk_tree(root, torn_paths)
         obs = {'root': root, 'code1': code1, 'code2': code2, 'ev1': ev1, 'out1': out1, 'tree1': tree1,
                'ev2': ev2, 'out2': out2, 'tree2': tree2, 'torn_applied': torn_applied}
